@@ -14,6 +14,7 @@ ENGINES = {
     "e2_history": ["{}", '{"faults": true}', '{"chains": true}'],
     "e3_pool": ['{"profile": "base", "schedules": 2}', '{"profile": "stagefault", "schedules": 1}', '{"profile": "converge", "schedules": 1}'],
     "e5_optout": ["{}"],
+    "e4_layout": ['{"ops": 6}'],
 }
 
 
